@@ -26,17 +26,17 @@ type dirent struct {
 }
 
 type vfile struct {
-	ino     *inode
-	off     int
-	flags   int
-	name    Str
-	closed  bool
-	order   []int // directory listing order (fixed at first read)
-	dirPos  int
-	write   bool
-	read    bool
-	path    string // resolved path (diagnostic)
-	parent  *inode
+	ino    *inode
+	off    int
+	flags  int
+	name   Str
+	closed bool
+	order  []int // directory listing order (fixed at first read)
+	dirPos int
+	write  bool
+	read   bool
+	path   string // resolved path (diagnostic)
+	parent *inode
 }
 
 type fsEvent struct {
@@ -56,19 +56,19 @@ type fsEvent struct {
 }
 
 type vfs struct {
-	in          *Interp
-	root        *inode
-	nextIno     int
-	trace       []fsEvent
-	tracing     bool
-	faultArmed  bool
-	faultFired  bool
-	faultDesc   string
-	permute     bool
-	tmpCount    int
-	randCount   int
-	snaps       []*inode
-	traceBase   *inode // snapshot of the tree at vpTraceBegin
+	in         *Interp
+	root       *inode
+	nextIno    int
+	trace      []fsEvent
+	tracing    bool
+	faultArmed bool
+	faultFired bool
+	faultDesc  string
+	permute    bool
+	tmpCount   int
+	randCount  int
+	snaps      []*inode
+	traceBase  *inode // snapshot of the tree at vpTraceBegin
 }
 
 const (
